@@ -6,6 +6,7 @@ import Mathlib.Algebra.Order.Field.Rat
 import Mathlib.Tactic.Ring
 import Mathlib.Tactic.Linarith
 import Mathlib.Tactic.Positivity
+import Mathlib.Tactic.FieldSimp
 import PorepyVerif.C17.Model
 
 namespace PorepyVerif.C17
@@ -32,6 +33,12 @@ theorem sumOver_add (l : List α) (g h : α → Rat) :
 
 theorem sumOver_sub (l : List α) (g h : α → Rat) :
     sumOver l (fun a => g a - h a) = sumOver l g - sumOver l h := by
+  induction l with
+  | nil => simp
+  | cons a l ih => simp only [sumOver_cons, ih]; ring
+
+theorem sumOver_neg (l : List α) (g : α → Rat) :
+    sumOver l (fun a => -g a) = -sumOver l g := by
   induction l with
   | nil => simp
   | cons a l ih => simp only [sumOver_cons, ih]; ring
@@ -322,8 +329,10 @@ theorem sgnDiv_eq_cnt (T : Topo) (f : Nat) (hu : ∀ i ∈ T, i.sgn = 1 ∨ i.sg
     rw [sumOver_cons, ih', cntPos_cons, cntNeg_cons]
     by_cases hf : j.face = f
     · rcases hu j List.mem_cons_self with h1 | h1
-      · simp [hf, h1]; ring
-      · simp [hf, h1]; ring
+      · have e : ¬ ((1 : Rat) < 0) := by norm_num
+        simp [hf, h1, e]; ring
+      · have e : ¬ ((1 : Rat) < 0) := by norm_num
+        simp [hf, h1, e]; ring
     · simp [hf]
 
 theorem sgnDiv_interior (T : Topo) (f : Nat) (h : WF T) (hi : Interior T f) : sgnDiv T f = 0 := by
@@ -393,9 +402,276 @@ theorem entryOf_block (k : Nat) (hk : 0 < k) (t : Trip) (r c : Nat) (n : Nat) (h
             constructor
             · rw [← a1, ← h]; exact Nat.div_add_mod' r k
             · rw [← a2, ← h, a3]; exact Nat.div_add_mod' c k
-        simp [a1, a2, a3, a4, a3 ▸ a5]
+        rw [if_pos ⟨a1, a2, a3, a5⟩, if_pos ⟨a1, a2, a3, a4⟩]
       · have h3 : ¬ (r / k = t.1 ∧ c / k = t.2.1 ∧ r % k = c % k ∧ r % k < n) := by
           intro ⟨a1, a2, a3, a4⟩; exact h2 ⟨a1, a2, a3, Nat.lt_succ_of_lt a4⟩
         rw [if_neg h2, if_neg h3]
+
+/-! ### discrete Gauss: summing the divergence over cells -/
+
+theorem sum_divAt (T : Topo) (g : Nat → Rat) (nc : Nat) (hc : ∀ i ∈ T, i.cell < nc) :
+    sumTo nc (divAt T g) = sumOver T (fun i => i.sgn * g i.face) := by
+  unfold divAt
+  rw [sumTo_sumOver_comm]
+  apply sumOver_congr
+  intro i hi
+  rw [sumTo_ite_eq i.cell nc (fun _ => i.sgn * g i.face), if_pos (hc i hi)]
+
+theorem sum_faces (T : Topo) (g : Nat → Rat) (nf : Nat) (hf : ∀ i ∈ T, i.face < nf) :
+    sumOver T (fun i => i.sgn * g i.face) = sumTo nf (fun f => sgnDiv T f * g f) := by
+  unfold sgnDiv
+  have e : ∀ f, sumOver T (fun i => if i.face = f then i.sgn else 0) * g f
+      = sumOver T (fun i => if i.face = f then i.sgn * g f else 0) := by
+    intro f
+    rw [← sumOver_mul_right]
+    apply sumOver_congr
+    intro i _
+    by_cases h : i.face = f <;> simp [h]
+  rw [sumTo_congr nf _ _ (fun f _ => e f), sumTo_sumOver_comm]
+  apply sumOver_congr
+  intro i hi
+  rw [sumTo_ite_eq i.face nf (fun f => i.sgn * g f), if_pos (hf i hi)]
+
+theorem divAt_eq_out_sub_in (T : Topo) (q : Nat → Rat) (k : Nat) :
+    divAt T q k = outflow T q k - inflow T q k := by
+  unfold divAt outflow inflow
+  rw [← sumOver_sub]
+  apply sumOver_congr
+  intro i _
+  by_cases h : i.cell = k
+  · simp only [if_pos h]
+    rcases le_total (i.sgn * q i.face) 0 with h1 | h1
+    · rw [max_eq_right h1, max_eq_left (by linarith)]; ring
+    · rw [max_eq_left h1, max_eq_right (by linarith)]; ring
+  · simp [h]
+
+/-! ### counting cells of a face from "every entry of the face has this sign" -/
+
+theorem cntNeg_eq_zero (T : Topo) (f : Nat) (h : ∀ j ∈ T, j.face = f → ¬ j.sgn < 0) : cntNeg T f = 0 := by
+  induction T with
+  | nil => rfl
+  | cons j T ih =>
+    rw [cntNeg_cons, ih (fun i hi => h i (List.mem_cons_of_mem _ hi))]
+    have : ¬ (j.face = f ∧ j.sgn < 0) := fun hc => h j List.mem_cons_self hc.1 hc.2
+    simp [this]
+
+theorem cntPos_eq_zero (T : Topo) (f : Nat) (h : ∀ j ∈ T, j.face = f → ¬ 0 < j.sgn) : cntPos T f = 0 := by
+  induction T with
+  | nil => rfl
+  | cons j T ih =>
+    rw [cntPos_cons, ih (fun i hi => h i (List.mem_cons_of_mem _ hi))]
+    have : ¬ (j.face = f ∧ 0 < j.sgn) := fun hc => h j List.mem_cons_self hc.1 hc.2
+    simp [this]
+
+/-- on an interior face of a well-formed topology both rows of `cf_dense` hold a cell -/
+theorem interior_upstream_some (P : Pb) (hwf : WF P.T) (f : Nat) (h : Interior P.T f) :
+    ∃ j, upstream P f = some j := by
+  obtain ⟨i, hi, hf, hs⟩ := mem_of_cntPos_pos P.T f (by rw [h.1])
+  obtain ⟨i', hi', hf', hs'⟩ := mem_of_cntNeg_pos P.T f (by rw [h.2])
+  unfold upstream
+  cases posFlux P f
+  · exact ⟨i'.cell, by simpa using denseNeg_of_mem P.T f (hwf.neg f) i' hi' hf' hs'⟩
+  · exact ⟨i.cell, by simpa using densePos_of_mem P.T f (hwf.pos f) i hi hf hs⟩
+
+/-- if the flux leaves the cell of an entry through its face, that cell is the upstream cell -/
+theorem upstream_of_outflow (P : Pb) (hwf : WF P.T) (i : Inc) (hi : i ∈ P.T)
+    (hout : 0 < i.sgn * P.q i.face) : upstream P i.face = some i.cell := by
+  unfold upstream
+  rcases hwf.unit i hi with h1 | h1
+  · rw [h1, one_mul] at hout
+    rw [(posFlux_iff P i.face).mpr (le_of_lt hout)]
+    simpa using densePos_of_mem P.T i.face (hwf.pos _) i hi rfl (by rw [h1]; norm_num)
+  · rw [h1] at hout
+    have hq : P.q i.face < 0 := by linarith
+    rw [(posFlux_false_iff P i.face).mpr hq]
+    simpa using denseNeg_of_mem P.T i.face (hwf.neg _) i hi rfl (by rw [h1]; norm_num)
+
+theorem upstream_cell_lt (P : Pb) (nc : Nat) (hcell : ∀ i ∈ P.T, i.cell < nc) (f j : Nat)
+    (h : upstream P f = some j) : j < nc := by
+  unfold upstream at h
+  cases hp : posFlux P f
+  · rw [hp] at h
+    obtain ⟨i, hi, _, _, hc⟩ := denseNeg_some_mem P.T f j (by simpa using h)
+    rw [← hc]; exact hcell i hi
+  · rw [hp] at h
+    obtain ⟨i, hi, _, _, hc⟩ := densePos_some_mem P.T f j (by simpa using h)
+    rw [← hc]; exact hcell i hi
+
+/-! ### the convex-combination argument, entry by entry -/
+
+/-- The face flux seen from the cell `k` of an entry is `flux × (a value between m and M)`, and that
+    value is the cell's own value when the flux leaves the cell. -/
+theorem faceFlux_as_upstream_value (P : Pb) (hwf : WF P.T) (nc : Nat) (c bv : Nat → Rat) (m M : Rat)
+    (hcell : ∀ i ∈ P.T, i.cell < nc)
+    (hc : ∀ j, j < nc → m ≤ c j ∧ c j ≤ M)
+    (hneu : ∀ f, P.isNeu f = true → P.q f = 0 ∧ bv f = 0)
+    (hnoerr : ∀ i ∈ P.T, P.q i.face ≠ 0 → upErr P i.face = false)
+    (hbv : ∀ i ∈ P.T, inflowDir P i.face = true → P.q i.face ≠ 0 → m ≤ bv i.face ∧ bv i.face ≤ M)
+    (i : Inc) (hi : i ∈ P.T) :
+    ∃ x, faceFlux P c bv i.face = P.q i.face * x ∧ m ≤ x ∧ x ≤ M ∧
+      (0 < i.sgn * P.q i.face → x = c i.cell) := by
+  have hk := hc i.cell (hcell i hi)
+  by_cases hq : P.q i.face = 0
+  · refine ⟨c i.cell, ?_, hk.1, hk.2, fun _ => rfl⟩
+    unfold faceFlux neuDiag
+    cases hn : P.isNeu i.face
+    · simp [hq]
+    · simp [hq, (hneu _ hn).2]
+  · have hn : P.isNeu i.face = false := by
+      cases hn : P.isNeu i.face
+      · rfl
+      · exact absurd (hneu _ hn).1 hq
+    have hnd : neuDiag P i.face = 0 := by unfold neuDiag; simp [hn]
+    cases hu : upstream P i.face with
+    | some j =>
+      have hin : inflowDir P i.face = false := by rw [inflowDir_eq, hu]; simp
+      have hdel : deleted P i.face = false := by unfold deleted; simp [hn, hin]
+      have hcol : upCol P i.face = some j := by rw [upCol_of_not_deleted P _ hdel, hu]
+      have hj := hc j (upstream_cell_lt P nc hcell i.face j hu)
+      refine ⟨c j, ?_, hj.1, hj.2, ?_⟩
+      · unfold faceFlux upVal dirDiag
+        rw [hcol, hnd]; simp [hin]
+      · intro hout
+        have := upstream_of_outflow P hwf i hi hout
+        rw [hu] at this
+        rw [Option.some.inj this]
+    | none =>
+      have he := hnoerr i hi hq
+      unfold upErr at he
+      rw [hu] at he
+      have hdel : deleted P i.face = true := by simpa using he
+      have hin : inflowDir P i.face = true := by
+        unfold deleted at hdel; simpa [hn] using hdel
+      have hb := hbv i hi hin hq
+      refine ⟨bv i.face, ?_, hb.1, hb.2, ?_⟩
+      · unfold faceFlux upVal dirDiag
+        rw [upCol_of_deleted P _ hdel, hnd]; simp [hin]
+      · intro hout
+        have := upstream_of_outflow P hwf i hi hout
+        rw [hu] at this
+        cases this
+
+theorem arith_term (s q x ck m M : Rat) (hx1 : m ≤ x) (hx2 : x ≤ M) (hout : 0 < s * q → x = ck) :
+    s * (q * x) - s * q * ck ≤ max (-(s * q)) 0 * (ck - m) ∧
+    -(max (-(s * q)) 0 * (M - ck)) ≤ s * (q * x) - s * q * ck := by
+  rcases lt_or_ge 0 (s * q) with h | h
+  · rw [hout h, max_eq_right (by linarith)]
+    constructor <;> · ring_nf; exact le_refl _
+  · rw [max_eq_left (by linarith)]
+    have h1 : s * q * (x - m) ≤ 0 := mul_nonpos_of_nonpos_of_nonneg h (by linarith)
+    have h2 : s * q * (M - x) ≤ 0 := mul_nonpos_of_nonpos_of_nonneg h (by linarith)
+    constructor <;> nlinarith [h1, h2]
+
+/-- bounds on the divergence of the face flux in cell `k`, obtained by summing `arith_term` -/
+theorem divAt_faceFlux_bounds (P : Pb) (hwf : WF P.T) (nc : Nat) (c bv : Nat → Rat) (m M : Rat)
+    (hcell : ∀ i ∈ P.T, i.cell < nc)
+    (hc : ∀ j, j < nc → m ≤ c j ∧ c j ≤ M)
+    (hneu : ∀ f, P.isNeu f = true → P.q f = 0 ∧ bv f = 0)
+    (hnoerr : ∀ i ∈ P.T, P.q i.face ≠ 0 → upErr P i.face = false)
+    (hbv : ∀ i ∈ P.T, inflowDir P i.face = true → P.q i.face ≠ 0 → m ≤ bv i.face ∧ bv i.face ≤ M)
+    (k : Nat) :
+    divAt P.T (faceFlux P c bv) k - divAt P.T P.q k * c k ≤ inflow P.T P.q k * (c k - m) ∧
+    -(inflow P.T P.q k * (M - c k)) ≤ divAt P.T (faceFlux P c bv) k - divAt P.T P.q k * c k := by
+  unfold divAt inflow
+  rw [← sumOver_mul_right, ← sumOver_mul_right, ← sumOver_mul_right, ← sumOver_sub]
+  have key : ∀ i ∈ P.T,
+      ((if i.cell = k then i.sgn * faceFlux P c bv i.face else 0) - (if i.cell = k then i.sgn * P.q i.face else 0) * c k
+        ≤ (if i.cell = k then max (-(i.sgn * P.q i.face)) 0 else 0) * (c k - m)) ∧
+      (-((if i.cell = k then max (-(i.sgn * P.q i.face)) 0 else 0) * (M - c k))
+        ≤ (if i.cell = k then i.sgn * faceFlux P c bv i.face else 0) - (if i.cell = k then i.sgn * P.q i.face else 0) * c k) := by
+    intro i hi
+    by_cases h : i.cell = k
+    · simp only [if_pos h]
+      obtain ⟨x, hx, hx1, hx2, hout⟩ :=
+        faceFlux_as_upstream_value P hwf nc c bv m M hcell hc hneu hnoerr hbv i hi
+      rw [hx, ← h]
+      exact arith_term i.sgn (P.q i.face) x (c i.cell) m M hx1 hx2 hout
+    · simp [h]
+  constructor
+  · exact sumOver_le _ _ _ (fun i hi => (key i hi).1)
+  · have := sumOver_le P.T
+      (fun i => -((if i.cell = k then max (-(i.sgn * P.q i.face)) 0 else 0) * (M - c k)))
+      _ (fun i hi => (key i hi).2)
+    rw [sumOver_neg] at this
+    exact this
+
+theorem arith_final_lower (ck m A W dt V : Rat) (hV : 0 < V) (hdt : 0 ≤ dt) (hcfl : dt * W ≤ V)
+    (hck : m ≤ ck) (hA : A ≤ W * (ck - m)) : m ≤ ck - dt / V * A := by
+  have hr : 0 ≤ dt / V := div_nonneg hdt hV.le
+  have h1 : dt / V * A ≤ dt / V * (W * (ck - m)) := mul_le_mul_of_nonneg_left hA hr
+  have h2 : dt / V * (W * (ck - m)) = dt * W / V * (ck - m) := by ring
+  have h3 : dt * W / V ≤ 1 := (div_le_one hV).mpr hcfl
+  have h4 : dt * W / V * (ck - m) ≤ 1 * (ck - m) := mul_le_mul_of_nonneg_right h3 (by linarith)
+  linarith
+
+theorem arith_final_upper (ck M A W dt V : Rat) (hV : 0 < V) (hdt : 0 ≤ dt) (hcfl : dt * W ≤ V)
+    (hck : ck ≤ M) (hA : -(W * (M - ck)) ≤ A) : ck - dt / V * A ≤ M := by
+  have hr : 0 ≤ dt / V := div_nonneg hdt hV.le
+  have h1 : dt / V * (-(W * (M - ck))) ≤ dt / V * A := mul_le_mul_of_nonneg_left hA hr
+  have h2 : dt / V * (W * (M - ck)) = dt * W / V * (M - ck) := by ring
+  have h3 : dt * W / V ≤ 1 := (div_le_one hV).mpr hcfl
+  have h4 : dt * W / V * (M - ck) ≤ 1 * (M - ck) := mul_le_mul_of_nonneg_right h3 (by linarith)
+  linarith
+
+/-! ### the triplet lists of the driver represent the entry functions -/
+
+theorem upwindTrip_entry (P : Pb) (nf f c : Nat) :
+    entryOf (upwindTrip P nf) f c = if f < nf then U P f c else 0 := by
+  induction nf with
+  | zero => simp [upwindTrip, entryOf_nil]
+  | succ n ih =>
+    unfold upwindTrip
+    rw [entryOf_append, ih]
+    unfold U
+    by_cases h1 : f < n
+    · have h2 : f < n + 1 := Nat.lt_succ_of_lt h1
+      have h3 : n ≠ f := (Nat.ne_of_lt h1).symm
+      cases hu : upCol P n <;> simp [h1, h2, h3, entryOf_cons, entryOf_nil]
+    · by_cases h2 : f = n
+      · subst h2
+        cases hu : upCol P f with
+        | none => simp [entryOf_nil]
+        | some j => simp [entryOf_cons, entryOf_nil, eq_comm]
+      · have h3 : ¬ f < n + 1 := by omega
+        have h4 : n ≠ f := fun e => h2 e.symm
+        cases hu : upCol P n <;> simp [h1, h3, h4, entryOf_cons, entryOf_nil]
+
+theorem dirTrip_entry (P : Pb) (nf r c : Nat) :
+    entryOf (dirTrip P nf) r c = if r < nf ∧ r = c then dirDiag P r else 0 := by
+  induction nf with
+  | zero => simp [dirTrip, entryOf_nil]
+  | succ n ih =>
+    unfold dirTrip
+    rw [entryOf_append, ih]
+    unfold dirDiag
+    by_cases h1 : r < n
+    · have h2 : r < n + 1 := Nat.lt_succ_of_lt h1
+      have h3 : n ≠ r := (Nat.ne_of_lt h1).symm
+      cases hu : inflowDir P n <;> simp [h1, h2, h3, entryOf_cons, entryOf_nil]
+    · by_cases h2 : r = n
+      · subst h2
+        cases hu : inflowDir P r <;> simp [entryOf_cons, entryOf_nil]
+      · have h3 : ¬ r < n + 1 := by omega
+        have h4 : n ≠ r := fun e => h2 e.symm
+        cases hu : inflowDir P n <;> simp [h1, h3, h4, entryOf_cons, entryOf_nil]
+
+theorem neuTrip_entry (P : Pb) (nf r c : Nat) :
+    entryOf (neuTrip P nf) r c = if r < nf ∧ r = c then neuDiag P r else 0 := by
+  induction nf with
+  | zero => simp [neuTrip, entryOf_nil]
+  | succ n ih =>
+    unfold neuTrip
+    rw [entryOf_append, ih]
+    unfold neuDiag
+    by_cases h1 : r < n
+    · have h2 : r < n + 1 := Nat.lt_succ_of_lt h1
+      have h3 : n ≠ r := (Nat.ne_of_lt h1).symm
+      cases hu : P.isNeu n <;> simp [h1, h2, h3, entryOf_cons, entryOf_nil]
+    · by_cases h2 : r = n
+      · subst h2
+        cases hu : P.isNeu r <;> simp [entryOf_cons, entryOf_nil]
+      · have h3 : ¬ r < n + 1 := by omega
+        have h4 : n ≠ r := fun e => h2 e.symm
+        cases hu : P.isNeu n <;> simp [h1, h3, h4, entryOf_cons, entryOf_nil]
 
 end PorepyVerif.C17
